@@ -287,3 +287,124 @@ class Assembled(Part):
 def _mdl(name):
     parts = str(name).split(' ')
     return parts[1] if len(parts) > 1 else str(name)
+
+
+class Newton(Part):
+    """
+    The matrices actually *handed to the Newton solvers* (``Solver.solve`` / ``linsolve`` of the power-flow and the
+    time-domain routine are wrapped): every one must be the derivative of the residual vector handed over with it.
+    The residual of an implicit step is  T (x - x0) - h c (f + ...)  with c = 1/2 (trapezoid) or 1 (backward Euler),
+    the algebraic rows are g, scaled by g_scale h when g_scale > 0; hence the matrix must be
+    [[T - h c fx, -h c fy], [s gx, s gy]] of the current dae.fx .. gy (which part 'assembled' ties to finite
+    differences of the residual functions).  Power flow: [[fx, fy], [gx, gy]].
+    """
+    name = 'newton'
+    chunk = 2
+    timeout = 600.0
+
+    SYS = ['kundur/kundur_full.xlsx', 'ieee14/ieee14_full.xlsx', 'smib/SMIB.json']
+
+    def __init__(self, tier='quick'):
+        self.tier = tier
+
+    def describe(self, tier):
+        return (f'{self.SYS if tier != "quick" else self.SYS[:2]}: every matrix passed to the sparse solver by PFlow.run and by a 0.3 s '
+                f'TDS.run (line trip at 0.1 s, so the step size changes) for the full product method in (trapezoid, backeuler) x '
+                f'g_scale in (0, 1, 0.5) x honest in (0, 1) x linsolve in (0, 1) x tstep in (1/30, 0.01) x fixt in (1, 0)')
+
+    def cases(self, tier):
+        out = []
+        for c in (self.SYS if tier != 'quick' else self.SYS[:2]):
+            for method, gs, honest, lin, tstep, fixt in itertools.product(('trapezoid', 'backeuler'), (0, 1, 0.5), (0, 1), (0, 1),
+                                                                          (1 / 30, 0.01), (1, 0)):
+                if tier == 'quick' and fixt == 0 and (lin == 1 or tstep != 1 / 30):
+                    continue
+                out.append(dict(case=c, method=method, g_scale=gs, honest=honest, linsolve=lin, tstep=tstep, fixt=fixt))
+        return out
+
+    def execute(self, case):
+        from vmc import systems
+        out = Outcome()
+        ss = systems.load_case(case['case'], setup=False)
+        if ss.Toggle.n:
+            ss.Toggle.u.v[:] = [0] * ss.Toggle.n
+        if hasattr(ss, 'Fault') and ss.Fault.n:
+            ss.Fault.u.v[:] = [0] * ss.Fault.n
+        ss.add('Toggle', dict(idx='TNEWTON', model='Line', dev=ss.Line.idx.v[min(7, ss.Line.n - 1)], t=0.1))
+        ss.setup()
+        systems.quiet_tds(ss)
+        dae = ss.dae
+        seen = set()
+        stat = dict(pflow=0, tds=0, worst=0.0)
+
+        def bad(sig, msg):
+            if sig not in seen:
+                seen.add(sig)
+                out.bad(sig, msg)
+
+        def compare(A, exp, where):
+            A = dense(A)
+            if A.shape != exp.shape:
+                bad(f'newton_matrix_shape:{where}', f'{where}: matrix handed to the solver is {A.shape}, residual has {exp.shape}')
+                return
+            scale = np.maximum(1.0, np.abs(exp))
+            d = np.abs(A - exp) / scale
+            w = float(d.max()) if d.size else 0.0
+            stat['worst'] = max(stat['worst'], w)
+            if w > 1e-9:
+                i, j = np.unravel_index(int(np.argmax(d)), d.shape)
+                names = list(dae.x_name) + list(dae.y_name)
+                blk = ('differential' if i < dae.n else 'algebraic') + '_rows'
+                bad(f'newton_matrix_is_not_the_residual_derivative:{where}:{blk}',
+                    f'{where} (t = {float(dae.t)!r}, h = {float(ss.TDS.h)!r}): entry d({names[i]})/d({names[j]}) handed to the solver is '
+                    f'{A[i, j]!r}, the derivative of the residual is {exp[i, j]!r}')
+
+        # ---- power flow
+        pf = ss.PFlow
+        pf.config.linsolve = case['linsolve']
+
+        def wrap(solver, where, expected):
+            for meth in ('solve', 'linsolve'):
+                orig = getattr(solver, meth)
+
+                def call(A, b, _orig=orig):
+                    stat[where] += 1
+                    compare(A, expected(), where)
+                    return _orig(A, b)
+                setattr(solver, meth, call)
+
+        def exp_pflow():
+            return np.block([[dense(dae.fx), dense(dae.fy)], [dense(dae.gx), dense(dae.gy)]]) if dae.n else dense(dae.gy)
+        wrap(pf.solver, 'pflow', exp_pflow)
+        if not pf.run():
+            out.obs = dict(skip='power flow failed')
+            return out
+        # ---- time domain
+        tds = ss.TDS
+        c = tds.config
+        c.method = case['method']
+        tds.set_method(case['method'])
+        c.g_scale, c.honest, c.linsolve, c.tstep, c.fixt = case['g_scale'], case['honest'], case['linsolve'], case['tstep'], case['fixt']
+        c.tf, c.criteria = 0.3, 0
+        coef = 0.5 if case['method'] == 'trapezoid' else 1.0
+
+        def exp_tds():
+            h = float(tds.h)
+            T = np.diag(np.array(dae.Tf, dtype=float))
+            s = case['g_scale'] * h if case['g_scale'] > 0 else 1.0
+            return np.block([[T - h * coef * dense(dae.fx), -h * coef * dense(dae.fy)],
+                             [s * dense(dae.gx), s * dense(dae.gy)]])
+        wrap(tds.solver, 'tds', exp_tds)
+        try:
+            ok = tds.run(no_summary=True)
+        except Exception as e:
+            import traceback
+            tb = traceback.extract_tb(e.__traceback__)
+            bad(f'raises:{type(e).__name__}@{tb[-1].name if tb else "?"}', f'{type(e).__name__}: {e}')
+            ok = None
+        if ok is False:
+            bad('run_failed', f'TDS.run returned False at t = {float(dae.t)!r}: {tds.err_msg!r}')
+        out.obs = dict(pflow_solves=stat['pflow'], tds_solves=stat['tds'], worst=float(f'{stat["worst"]:.1e}'))
+        out.transitions = stat['pflow'] + stat['tds']
+        out.nontrivial = stat['tds'] > 5
+        return out
